@@ -193,6 +193,22 @@ def _colour_events(seed, thorough, tid0):
             vals.append(10.0 * math.log10(np.sum(img ** 2) / np.sum(noise ** 2)))
         ev.append({"tid": tid, "op": "snr", "target_mdb": int(round(target * 1000)),
                    "mean_mdb": int(round(float(np.mean(vals)) * 1000)), "n_seeds": 64, "samples": 1024})
+    # the DEFAULT generator (rng omitted): the requested SNR is met in expectation over calls, which needs fresh noise per call
+    for target, shp in ((10.0, (1, 1, 4)), (20.0, (1, 2, 4)), (25.0, (4, 4, 4))):
+        tid += 1
+        img = rng.random(shp) + 0.1
+        vals, noises = [], []
+        ncalls = 6000 if int(np.prod(shp)) <= 8 else 1500                 # >= 24000 samples: one sigma of the estimate is 0.04 dB (slack 0.5 dB)
+        for s_ in range(ncalls):
+            noisy = Q.add_awgn_snr(img, target)
+            noises.append(noisy - img)
+        pw = float(np.mean([np.sum(nz ** 2) for nz in noises]))
+        ev.append({"tid": tid, "op": "snr", "target_mdb": int(round(target * 1000)),
+                   "mean_mdb": int(round(10.0 * math.log10(np.sum(img ** 2) / max(pw, 1e-300)) * 1000)), "n_seeds": ncalls, "samples": ncalls * int(np.prod(shp)),
+                   "default_generator": True})
+        tid += 1
+        ev.append({"tid": tid, "op": "flag", "clause": "SnrInExpectation", "what": "default generator draws fresh noise on every call",
+                   "ok": bool(not np.array_equal(noises[0], noises[1]))})
     z = np.zeros((4, 4, 4))
     tid += 1
     ev.append({"tid": tid, "op": "flag", "clause": "SnrZeroSignalUnchanged",
